@@ -1,6 +1,7 @@
 import SlipVerif.Lemmas.PrinterMain
 import SlipVerif.Lemmas.PrinterPretty
 import SlipVerif.Lemmas.PrinterPrettyRead
+import SlipVerif.Lemmas.PrinterReadBase
 import SlipVerif.Lemmas.Wire6
 /-
   C03 — printing then reading gives back an equal object of the same type; pretty printing changes
@@ -49,6 +50,34 @@ theorem radix_int_roundtrip (hT : TablesOK) (cfg : PCfg) (hb : 2 ≤ cfg.base) (
 
 example : printInt { base := 7, radix := true } (-10) = "#7r-13".toList := by decide
 example : printInt { base := 10, radix := true } 42 = "42.".toList := by decide
+
+/-- int_readbase_roundtrip: without `*print-radix*` an integer printed in any base 2..36 reads back
+    when `*read-base*` is bound to the print base — the same integer, hence (`typeOf` is a function of
+    the value) a fixnum for a fixnum and a bignum for a bignum, however many digits the base needs —
+    unless its digits spell the tokens `t` or `nil`. -/
+theorem int_readbase_roundtrip (hT : TablesOK) (b : Nat) (hb : 2 ≤ b) (hb36 : b ≤ 36) (n : Int)
+    (ht : intText b n ≠ ['t']) (hn : intText b n ≠ ['n', 'i', 'l'])
+    (rest : List Char) (hrest : termOrEnd rest = true) (fuel : Nat) :
+    ∃ y, read1 b (fuel + 1) (printInt { base := b, radix := false } n ++ rest) = .ok (y, rest) ∧
+      y = .int n ∧ typeOf y = typeOf (.int n) := by
+  refine ⟨.int n, ?_, rfl, rfl⟩
+  have : printInt { base := b, radix := false } n = intText b n := by simp [printInt]
+  rw [this]
+  exact read1_int_readbase hT b hb hb36 n ht hn rest hrest fuel
+
+/-- the exceptions of `int_readbase_roundtrip` exist only in the bases above 29 (`t`) and 23 (`nil`) -/
+theorem int_readbase_exceptions (b : Nat) (hb : 2 ≤ b) (hb36 : b ≤ 36) (n : Int) :
+    (intText b n = ['t'] → 29 < b) ∧ (intText b n = ['n', 'i', 'l'] → 23 < b) :=
+  ⟨intText_t b hb hb36 n, intText_nil b hb hb36 n⟩
+
+example : intText 2 524288 = "10000000000000000000".toList ∧ typeOf (.int 524288) = .fixnum := by decide
+example : intText 30 29 = ['t'] ∧ intText 24 13701 = ['n', 'i', 'l'] := by decide
+
+/-- equal objects have the same type: the reader's result for a printed object has the type of the
+    original, integers included (fixnum / bignum by value). -/
+theorem equal_same_type (x y : Obj) (h : objEq x y = true) : typeOf x = typeOf y := by
+  cases x <;> cases y <;> simp [objEq] at h <;> simp [typeOf]
+  · rw [h]
 
 /-- ratio round trip: a ratio in lowest terms, with or without the radix prefix. -/
 theorem ratio_roundtrip (hT : TablesOK) (cfg : PCfg) (hb : 2 ≤ cfg.base) (hb36 : cfg.base ≤ 36)
